@@ -20,10 +20,14 @@ public:
 
 private:
     std::vector<U> scratch;
-    static U key() { return g_ctx->runKey; }
+    // per-object state that enters the arithmetic (a "user parameter" of the kernel): 0 when the kernel is built from a configuration
+    // alone; the harness sets it on the kernel object it hands to the executor constructors that take a kernel, so that worker
+    // copies made by the library must really be copies of THAT object
+    U param = 0;
+    U key() const { return g_ctx->runKey ^ param; }
     static U wOf(RealType v) { return U((long long)(v)); }
     template <class Data> static U weightOf(const Data& data, const long int idx[], long i) {
-        if constexpr (FromIndex) { (void)data; return wkWeight(key(), 0, idx[i]); }
+        if constexpr (FromIndex) { (void)data; return wkWeight(g_ctx->runKey, 0, idx[i]); }
         else { (void)idx; return wOf(data[3][i]); }
     }
     template <class Rhs> static void extraRows(Rhs& rhs, long i, U old1) {
@@ -34,6 +38,7 @@ private:
 
 public:
     explicit WeightKernel(const SpacialConfiguration&) {}
+    void setParam(U p) { param = p; }
     WeightKernel(const WeightKernel&) = default;
     WeightKernel& operator=(const WeightKernel&) = default;
 
